@@ -22,6 +22,9 @@ def optGetT {α : Type} (o : Option α) : R α :=
   | some v => .ok v
   | none => raise .typeError
 
+/-- `s.isascii()` (True for the empty string) -/
+def isasciiS (s : Str) : Bool := s.all (fun c => decide (c < 128))
+
 /-- `s.encode('ascii').decode('ascii')` -/
 def asciiOnly (s : Str) : R Str := if s.all (fun c => decide (c < 128)) then .ok s else raise .unicodeError
 
